@@ -7,31 +7,66 @@ theorem foldl_rm_removes (t : Name) (p : Path) :
   fun l st hp => foldl_removes (rmTarget false t) (fun p => [p]) (rmTarget_frame false t) p (fun x => x = p)
     (fun st x hx => hx ▸ rmTarget_removes t st x) l st ⟨p, hp, rfl⟩
 
-theorem rmTarget_links_nil (dry : Bool) (t : Name) (s : World × List Ev) (p : Path) (h : s.1.links = []) :
-    (rmTarget dry t s p).1.links = [] := by
-  unfold rmTarget
-  have hl : (linkDest s.1 p).isSome = false := by simp [linkDest, h, alookup]
-  simp only [hl, Bool.false_eq_true, if_false]
-  split
-  · cases dry <;> exact h
-  · split
-    · split
-      · exact h
-      · cases dry <;> exact h
-    · exact h
+theorem rmLink_links_sub (dry : Bool) (t : Name) (s : World × List Ev) (p d : Path) :
+    ∀ l, l ∈ (rmLink dry t s p d).1.links → l ∈ s.1.links := by
+  unfold rmLink
+  intro l hl
+  split at hl
+  · cases dry
+    · simp only [Bool.false_eq_true, if_false, List.mem_filter] at hl; exact hl.1
+    · exact hl
+  · split at hl
+    · split at hl
+      · exact hl
+      · cases dry
+        · simp only [Bool.false_eq_true, if_false, List.mem_filter] at hl; exact hl.1
+        · exact hl
+    · exact hl
 
-theorem foldl_links_nil (dry : Bool) (t : Name) : ∀ (l : List Path) (s : World × List Ev), s.1.links = [] →
-    (l.foldl (rmTarget dry t) s).1.links = [] := by
-  intro l
-  induction l with
-  | nil => intro s h; exact h
-  | cons x l ih => intro s h; simp only [List.foldl_cons]; exact ih _ (rmTarget_links_nil dry t s x h)
+/-- symbolic links are never created, only removed -/
+theorem rmTarget_links_sub (dry : Bool) (t : Name) (s : World × List Ev) (p : Path) :
+    ∀ l, l ∈ (rmTarget dry t s p).1.links → l ∈ s.1.links := by
+  unfold rmTarget
+  intro l hl
+  split at hl
+  · cases dry <;> exact hl
+  · split at hl
+    · exact rmLink_links_sub dry t s p _ l hl
+    · split at hl
+      · split at hl
+        · exact hl
+        · cases dry <;> exact hl
+      · exact hl
+
+theorem foldl_links_sub (dry : Bool) (t : Name) : ∀ (xs : List Path) (s : World × List Ev),
+    ∀ l, l ∈ (xs.foldl (rmTarget dry t) s).1.links → l ∈ s.1.links := by
+  intro xs
+  induction xs with
+  | nil => intro s l h; exact h
+  | cons x xs ih => intro s l h; simp only [List.foldl_cons] at h; exact rmTarget_links_sub dry t s x l (ih _ l h)
+
+/-- `d` is not a symbolic link and no symbolic link lies below `d` -/
+def LinksAway (d : Path) (w : World) : Prop := ∀ l, l ∈ w.links → l.1 ≠ d ∧ below d l.1 = false
+
+theorem linkDest_none_of_away {d : Path} {w : World} (h : LinksAway d w) : (linkDest w d).isSome = false := by
+  unfold linkDest
+  have : ∀ (ls : List (Path × Path)), (∀ l, l ∈ ls → l.1 ≠ d) → alookup d ls = none := by
+    intro ls
+    induction ls with
+    | nil => intro _; rfl
+    | cons x ls ih =>
+      obtain ⟨a, b⟩ := x
+      intro hh
+      have hne : ¬ a = d := hh (a, b) (by simp)
+      simp only [alookup, hne, if_false]
+      exact ih (fun l hl => hh l (List.mem_cons_of_mem _ hl))
+  rw [this w.links (fun l hl => (h l hl).1)]
+  rfl
 
 theorem rmTarget_rmdir (t : Name) (s : World × List Ev) (d : Path) (hnf : d ∉ s.1.files)
-    (hl : s.1.links = []) (he : hasEntry s.1 d = false) : d ∉ (rmTarget false t s d).1.dirs := by
+    (hl : LinksAway d s.1) (he : hasEntry s.1 d = false) : d ∉ (rmTarget false t s d).1.dirs := by
   unfold rmTarget
-  have hl' : (linkDest s.1 d).isSome = false := by simp [linkDest, hl, alookup]
-  simp only [hnf, if_false, hl', he, Bool.false_eq_true]
+  simp only [hnf, if_false, linkDest_none_of_away hl, he, Bool.false_eq_true]
   split
   · simp
   · assumption
@@ -39,7 +74,7 @@ theorem rmTarget_rmdir (t : Name) (s : World × List Ev) (d : Path) (hnf : d ∉
 /-- a target directory whose whole content are target files of the same task is removed: the files inside are
     handled first (`sortDesc` puts them before the directory), so `os.listdir` finds it empty -/
 theorem cleanTargets_rmdir (t : Name) (targets : List Path) (st : World × List Ev) (d : Path)
-    (hd : d ∈ targets) (hnf : d ∉ st.1.files) (hnl : st.1.links = [])
+    (hd : d ∈ targets) (hnf : d ∉ st.1.files) (hnl : LinksAway d st.1)
     (hfiles : ∀ q, q ∈ st.1.files → below d q = true → q ∈ targets)
     (hdirs : ∀ q, q ∈ st.1.dirs → below d q = false) :
     d ∉ (cleanTargets false t targets st).1.dirs := by
@@ -50,10 +85,14 @@ theorem cleanTargets_rmdir (t : Name) (targets : List Path) (st : World × List 
   -- after the part of the walk before `d`, nothing is left below `d`
   have hempty : hasEntry (l1.foldl (rmTarget false t) st).1 d = false := by
     unfold hasEntry
-    rw [foldl_links_nil false t l1 st hnl, List.map_nil, List.append_nil, List.any_eq_false]
+    rw [List.any_eq_false]
     intro q hq
-    simp only [List.mem_append] at hq
-    rcases hq with hq | hq
+    simp only [List.mem_append, List.mem_map] at hq
+    rcases hq with (hq | hq) | ⟨l, hl, hlq⟩
+    rotate_left 2
+    · have := (hnl l (foldl_links_sub false t l1 st l hl)).2
+      rw [hlq] at this
+      simp [this]
     · intro hb
       have hq0 := hf1.fsub q hq
       have hqt := hfiles q hq0 hb
@@ -72,81 +111,82 @@ theorem cleanTargets_rmdir (t : Name) (targets : List Path) (st : World × List 
       simp [this]
   have hnf1 : d ∉ (l1.foldl (rmTarget false t) st).1.files := fun h => hnf (hf1.fsub d h)
   have hstep : d ∉ (rmTarget false t (l1.foldl (rmTarget false t) st) d).1.dirs :=
-    rmTarget_rmdir t _ d hnf1 (foldl_links_nil false t l1 st hnl) hempty
+    rmTarget_rmdir t _ d hnf1 (fun l hl => hnl l (foldl_links_sub false t l1 st l hl)) hempty
   have hf2 := foldl_frame (rmTarget false t) (fun p => [p]) (rmTarget_frame false t) l2
     (rmTarget false t (l1.foldl (rmTarget false t) st) d)
   exact fun h => hstep (hf2.dsub d h)
 
-/-! ### without symbolic links the command never reaches the `os.rmdir`-on-a-link crash -/
-/-- no symbolic link in the world, no crash event so far -/
-def NoLinkNoCrash (st : World × List Ev) : Prop := st.1.links = [] ∧ ∀ e, e ∈ st.2 → isCrash e = false
+/-! ### the model never emits a `crash` event: `clean` always runs to its end (since fix a5ed062) -/
+def NoCrash (st : World × List Ev) : Prop := ∀ e, e ∈ st.2 → isCrash e = false
 
-theorem rmTarget_nlnc (dry : Bool) (t : Name) (st : World × List Ev) (p : Path) (h : NoLinkNoCrash st) :
-    NoLinkNoCrash (rmTarget dry t st p) := by
-  refine ⟨rmTarget_links_nil dry t st p h.1, ?_⟩
-  unfold rmTarget
-  have hl : (linkDest st.1 p).isSome = false := by simp [linkDest, h.1, alookup]
-  simp only [hl, Bool.false_eq_true, if_false]
+theorem rmLink_nocrash (dry : Bool) (t : Name) (st : World × List Ev) (p d : Path) (h : NoCrash st) :
+    NoCrash (rmLink dry t st p d) := by
+  unfold rmLink
   intro e he
   split at he
   · simp only [List.mem_append, List.mem_singleton] at he
     rcases he with he | he
-    · exact h.2 e he
+    · exact h e he
     · rw [he]; rfl
   · split at he
     · split at he <;>
       · simp only [List.mem_append, List.mem_singleton] at he
         rcases he with he | he
-        · exact h.2 e he
+        · exact h e he
         · rw [he]; rfl
-    · exact h.2 e he
+    · exact h e he
 
-theorem applyEff_links (e : Option Eff) (w : World) : (applyEff e w).links = w.links := by
-  cases e with
-  | none => rfl
-  | some e =>
-    cases e with
-    | rm p => rfl
-    | mk p => simp only [applyEff]; split <;> rfl
-
-theorem runAct_nlnc (dry : Bool) (t : Name) (k : Nat) (a : Act) (st : World × List Ev) (h : NoLinkNoCrash st) :
-    NoLinkNoCrash (runAct dry t k a st) := by
-  unfold runAct
-  split
-  · refine ⟨?_, ?_⟩
-    · cases dry
-      · simp only [Bool.false_eq_true, if_false]; rw [applyEff_links]; exact h.1
-      · exact h.1
-    · intro e he
-      simp only [List.mem_append, List.mem_cons, List.not_mem_nil, or_false] at he
-      rcases he with he | he | he
-      · exact h.2 e he
-      · rw [he]; rfl
-      · rw [he]; split <;> rfl
-  · refine ⟨h.1, ?_⟩
-    intro e he
-    simp only [List.mem_append, List.mem_singleton] at he
+theorem rmTarget_nocrash (dry : Bool) (t : Name) (st : World × List Ev) (p : Path) (h : NoCrash st) :
+    NoCrash (rmTarget dry t st p) := by
+  unfold rmTarget
+  intro e he
+  split at he
+  · simp only [List.mem_append, List.mem_singleton] at he
     rcases he with he | he
-    · exact h.2 e he
+    · exact h e he
+    · rw [he]; rfl
+  · split at he
+    · exact rmLink_nocrash dry t st p _ h e he
+    · split at he
+      · split at he <;>
+        · simp only [List.mem_append, List.mem_singleton] at he
+          rcases he with he | he
+          · exact h e he
+          · rw [he]; rfl
+      · exact h e he
+
+theorem runAct_nocrash (dry : Bool) (t : Name) (k : Nat) (a : Act) (st : World × List Ev) (h : NoCrash st) :
+    NoCrash (runAct dry t k a st) := by
+  unfold runAct
+  intro e he
+  split at he
+  · simp only [List.mem_append, List.mem_cons, List.not_mem_nil, or_false] at he
+    rcases he with he | he | he
+    · exact h e he
+    · rw [he]; rfl
+    · rw [he]; split <;> rfl
+  · simp only [List.mem_append, List.mem_singleton] at he
+    rcases he with he | he
+    · exact h e he
     · rw [he]; rfl
 
-theorem runActs_nlnc (dry : Bool) (t : Name) : ∀ (as : List Act) (k : Nat) (st : World × List Ev),
-    NoLinkNoCrash st → NoLinkNoCrash (runActs dry t k as st) := by
+theorem runActs_nocrash (dry : Bool) (t : Name) : ∀ (as : List Act) (k : Nat) (st : World × List Ev),
+    NoCrash st → NoCrash (runActs dry t k as st) := by
   intro as
   induction as with
   | nil => intro k st h; exact h
-  | cons a as ih => intro k st h; simp only [runActs]; exact ih _ _ (runAct_nlnc dry t k a st h)
+  | cons a as ih => intro k st h; simp only [runActs]; exact ih _ _ (runAct_nocrash dry t k a st h)
 
-theorem foldl_nlnc {γ : Type} (g : World × List Ev → γ → World × List Ev)
-    (hg : ∀ st x, NoLinkNoCrash st → NoLinkNoCrash (g st x)) :
-    ∀ (l : List γ) (st : World × List Ev), NoLinkNoCrash st → NoLinkNoCrash (l.foldl g st) := by
+theorem foldl_nocrash {γ : Type} (g : World × List Ev → γ → World × List Ev)
+    (hg : ∀ st x, NoCrash st → NoCrash (g st x)) :
+    ∀ (l : List γ) (st : World × List Ev), NoCrash st → NoCrash (l.foldl g st) := by
   intro l
   induction l with
   | nil => intro st h; exact h
   | cons x l ih => intro st h; simp only [List.foldl_cons]; exact ih _ (hg st x h)
 
-theorem taskClean_nlnc (tbl : Table) (dry : Bool) (t : Name) (st : World × List Ev) (h : NoLinkNoCrash st) :
-    NoLinkNoCrash (taskClean tbl dry t st) := by
+theorem taskClean_nocrash (tbl : Table) (dry : Bool) (t : Name) (st : World × List Ev) (h : NoCrash st) :
+    NoCrash (taskClean tbl dry t st) := by
   unfold taskClean
   cases tbl[t]? with
   | none => exact h
@@ -154,19 +194,19 @@ theorem taskClean_nlnc (tbl : Table) (dry : Bool) (t : Name) (st : World × List
     simp only
     cases tk.kind with
     | nothing => exact h
-    | targets => exact foldl_nlnc _ (fun st p hh => rmTarget_nlnc dry t st p hh) _ _ h
-    | actions as => exact runActs_nlnc dry t as 0 st h
+    | targets => exact foldl_nocrash _ (fun st p hh => rmTarget_nocrash dry t st p hh) _ _ h
+    | actions as => exact runActs_nocrash dry t as 0 st h
 
-theorem cleanTasks_nlnc (tbl : Table) (dry forget : Bool) (order : List Name) (w : World) (h : w.links = []) :
-    NoLinkNoCrash (cleanTasks tbl dry forget order w) := by
+theorem cleanTasks_nocrash (tbl : Table) (dry forget : Bool) (order : List Name) (w : World) :
+    NoCrash (cleanTasks tbl dry forget order w) := by
   unfold cleanTasks
-  refine foldl_nlnc _ ?_ order (w, []) ⟨h, fun e he => by simp at he⟩
+  refine foldl_nocrash _ ?_ order (w, []) (fun e he => by simp at he)
   intro st t hh
-  have := taskClean_nlnc tbl dry t st hh
+  have := taskClean_nocrash tbl dry t st hh
   unfold cleanOne
   simp only
   split
-  · exact ⟨this.1, this.2⟩
+  · exact this
   · exact this
 
 end DoitModel.Clean
